@@ -194,7 +194,7 @@ class GroupOp(collections.namedtuple('GroupOp', 'rot trans cartrot indexmap')):
         ### that in a hash function. We lose a little bit on efficiency if we construct a set that
         ### has a whole lot of translation operations, but that's not usually what we will do.
         # return hash(self.rot.data.tobytes())
-        return hash(self.rot.data.tobytes()) ^ hash(self.indexmap)
+        return hash(np.asarray(self.rot, dtype=int).tobytes()) ^ hash(self.indexmap)
 
     def __add__(self, other):
         """Add a translation to our group operation"""
